@@ -19,6 +19,7 @@ inductive MSt where
   | conc (s : ConcDrv.St)
   | fmt (s : FmtDrv.St)
   | names (s : NamesDrv.St)
+  | std
 
 def stepLine (st : MSt) (line : String) : MSt × String :=
   let toks := (line.trimAscii.toString.splitOn " ").filter (· ≠ "")
@@ -31,6 +32,7 @@ def stepLine (st : MSt) (line : String) : MSt × String :=
     | "conc" => (.conc {}, hdr)
     | "fmt" => (.fmt {}, hdr)
     | "names" => (.names {}, hdr)
+    | "std" => (.std, hdr)
     | _ => (.none, hdr ++ " unknown-model")
   | ["END"] => (.none, "END")
   | _ =>
@@ -41,6 +43,12 @@ def stepLine (st : MSt) (line : String) : MSt × String :=
     | .conc s => let (s', out) := ConcDrv.step s toks; (.conc s', out)
     | .fmt s => let (s', out) := FmtDrv.step s toks; (.fmt s', out)
     | .names s => let (s', out) := NamesDrv.step s toks; (.names s', out)
+    -- stdout/stderr as output: the stream must hold exactly the lines, in order (Conc, one thread)
+    | .std =>
+      match toks with
+      | "STDRUN" :: _mode :: _target :: _how :: ls =>
+        (st, String.join (ls.map (fun l => if l = "-" then "" else l)) |> fun x => if x.isEmpty then "-" else x)
+      | _ => (st, "bad-op")
 
 partial def loop (hin : IO.FS.Stream) (hout : IO.FS.Stream) (st : MSt) : IO Unit := do
   let line ← hin.getLine
